@@ -69,9 +69,9 @@ def ev_node(e):
 
 
 def model_of(st):
-    s = z3.Solver()
-    s.add(*st.pc)
-    if s.check() != z3.sat:
+    import zutil
+    r, s = zutil.check(list(st.pc), 60000)
+    if r != z3.sat:
         return None
     return s.model()
 
